@@ -388,10 +388,18 @@ func init() {
 				}
 				nw := 0
 				drift := ""
+				// every third behaviour runs with a lazy reader: it reads only when it is about to close, so an
+				// inbound reset finds unread messages in the stream object (receive-window accounting, C11)
+				lazy := k%3 == 0
 			loop:
 				for _, op := range ops {
 					auto()
-					drainB()
+					if !lazy {
+						drainB()
+					} else {
+						readA()
+						w.accept(1) // the application holds the stream object but has not read from it yet
+					}
 					switch op.Op {
 					case "open":
 						if w.open(0, 1, 51) == nil {
@@ -422,7 +430,12 @@ func init() {
 							break loop
 						}
 						w.deliver(p.id)
-						drainB()
+						if !lazy {
+							drainB()
+						} else {
+							readA()
+							w.accept(1)
+						}
 					case "deliver", "drop":
 						p := find(op.From, op.K, op.N)
 						if p == nil {
